@@ -49,7 +49,13 @@ def mk_cube(spec):
     # the same values in another memory layout (F-order, transposed or strided view) are the same cube
     from vlib.strategies import relayout
 
-    return FoldedData(relayout(data.copy(), spec.get("layout", "C")), hdr, spec["p0"], spec["dm0"]), data, hdr
+    return FoldedData(relayout(data.copy(), spec.get("layout", "C")), hdr, spec["p0"], spec["dm0"], *accel_args(spec)), data, hdr
+
+
+def accel_args(spec):
+    """The acceleration the cube was folded with (a constructor argument, `fil.fold(..., accel=a)` passes it on):
+    omitted, zero or not.  The property's shifts are fixed by DM and period only, so the oracle ignores it."""
+    return () if spec.get("accel") is None else (spec["accel"],)
 
 
 def targets(spec):
@@ -140,7 +146,7 @@ def run_history(spec, ops, label_extra=()):
         # (iii) equals a fresh cube updated once, in either order
         fresh = []
         for order in (("dm", "p"), ("p", "dm")):
-            f = FoldedData(orig.copy(), hdr, p0, dm0)
+            f = FoldedData(orig.copy(), hdr, p0, dm0, *accel_args(spec))
             for o in order:
                 if o == "dm":
                     f.update_dm(cur_dm)
@@ -203,10 +209,10 @@ def run_history(spec, ops, label_extra=()):
 
 
 FIXED_CUBES = [
-    {"nints": 3, "nbands": 4, "nbins": 16, "seed": 1, "nchans": 64, "foff": -2.0, "fch1": 500.0, "tsamp": 1e-3, "nsamples": 200000, "p0": 0.1, "dm0": 30.0},
+    {"nints": 3, "nbands": 4, "nbins": 16, "seed": 1, "nchans": 64, "foff": -2.0, "fch1": 500.0, "tsamp": 1e-3, "nsamples": 200000, "p0": 0.1, "dm0": 30.0, "accel": 10.0},
     {"layout": "F", "nints": 2, "nbands": 3, "nbins": 32, "seed": 2, "nchans": 96, "foff": -1.0, "fch1": 350.0, "tsamp": 64e-6, "nsamples": 4000000, "p0": 0.0337, "dm0": 0.0},
     {"layout": "strided_view", "nints": 4, "nbands": 1, "nbins": 8, "seed": 3, "nchans": 32, "foff": -4.0, "fch1": 800.0, "tsamp": 1e-3, "nsamples": 600000, "p0": 0.5, "dm0": 100.0},
-    {"nints": 1, "nbands": 6, "nbins": 64, "seed": 4, "nchans": 100, "foff": 1.0, "fch1": 300.0, "tsamp": 1e-3, "nsamples": 100000, "p0": 0.0123, "dm0": 12.5},
+    {"nints": 1, "nbands": 6, "nbins": 64, "seed": 4, "nchans": 100, "foff": 1.0, "fch1": 300.0, "tsamp": 1e-3, "nsamples": 100000, "p0": 0.0123, "dm0": 12.5, "accel": -2.5},
     # everything dyadic (p0 = 1 s, tobs = 128 s, 16 bins, 8 sub-integrations): the period targets put the drift of the odd
     # sub-integrations EXACTLY on half a bin, where the rounding rule decides - and must decide the same way whatever
     # was installed before
@@ -252,7 +258,8 @@ def strat_random(draw):
             "fch1": draw(st.sampled_from([200.0, 350.0, 500.0, 800.0])) + (abs(foff) * nchans if foff < 0 else 0.0),
             "tsamp": draw(st.sampled_from([1e-3, 64e-6])), "nsamples": draw(st.integers(10**5, 10**7)),
             "p0": draw(st.sampled_from([0.1, 0.0337, 0.5, 0.0123, 1.0])), "dm0": draw(st.sampled_from([0.0, 10.0, 56.7, 300.0])),
-            "layout": draw(st.sampled_from(["C", "C", "C", "F", "transposed_view", "strided_view", "reversed_view"]))}
+            "layout": draw(st.sampled_from(["C", "C", "C", "F", "transposed_view", "strided_view", "reversed_view"])),
+            "accel": draw(st.sampled_from([None, None, 0.0, 10.0, -2.5, 5e5]))}
     ops = draw(st.lists(st.tuples(st.sampled_from(["dm", "dm", "p", "p", "dm0", "p0", "dmz"]), st.floats(-8, 8, allow_nan=False)), min_size=1, max_size=30))
     return {"spec": spec, "ops": [[k, v] for k, v in ops]}
 
